@@ -52,6 +52,17 @@ var c05Shapes = []c05Shape{
 	{"anyOf-integer-string", "prim", []map[string]any{m("anyOf", l(intS(), m("type", "string")))}, []any{1.0, "ab"}, ""},
 }
 
+// extra values of the thorough tier, appended to the shapes of the same name
+var c05ThoroughValues = map[string][]any{
+	"integer":       {2147483648.0, -2147483649.0, 100.0},
+	"number":        {0.0, 1e3, -1.25},
+	"string":        {"0", "false", "null", "x-y", "p", "pp1", "=", "a=b", "[", "a[b]", "Z"},
+	"array-integer": {l(1.0, 1.0), l(10.0, 20.0, 30.0, 40.0)},
+	"array-string":  {l("p", "pm"), l("a", "a"), l("1", "true")},
+	"object-flat":   {m("b", "1"), m("a", 10.0, "b", "a")},
+	"object-nested": {m("a", m("b", 1.0), "s", "p"), m("l", l(0.0))},
+}
+
 func c05Applicable(c ref.Cell, class string) bool {
 	switch c.Style {
 	case "spaceDelimited", "pipeDelimited":
@@ -63,6 +74,7 @@ func c05Applicable(c ref.Cell, class string) bool {
 }
 
 type c05Case struct {
+	declared  int // 0 style and explode explicit, 1 explode left to its default (when the cell's explode is the style's default), 2 both left to their defaults
 	cell      ref.Cell
 	shape     c05Shape
 	si, vi    int
@@ -77,7 +89,7 @@ func (c c05Case) sig() string {
 	if c.presence == "present" {
 		v = CanonJSON(c.shape.values[c.vi])
 	}
-	return fmt.Sprintf("%s %s schema#%d value=%s presence=%s required=%v allowEmptyValue=%v reversed=%v", c.cell, c.shape.name, c.si, v, c.presence, c.required, c.allowEmpt, c.reverse)
+	return fmt.Sprintf("%s declared=%d %s schema#%d value=%s presence=%s required=%v allowEmptyValue=%v reversed=%v", c.cell, c.declared, c.shape.name, c.si, v, c.presence, c.required, c.allowEmpt, c.reverse)
 }
 
 // c05Build makes the parameter and the request input for a case.
@@ -94,6 +106,12 @@ func c05Build(c c05Case) (*openapi3.Parameter, *openapi3filter.RequestValidation
 	explode := c.cell.Explode
 	param := &openapi3.Parameter{Name: name, In: c.cell.In, Style: c.cell.Style, Explode: &explode, Required: c.required, AllowEmptyValue: c.allowEmpt,
 		Schema: &openapi3.SchemaRef{Value: schema}}
+	if c.declared >= 1 {
+		param.Explode = nil
+	}
+	if c.declared == 2 {
+		param.Style = ""
+	}
 	req, _ := http.NewRequest("GET", "http://h.example/r", nil)
 	in := &openapi3filter.RequestValidationInput{Request: req, PathParams: map[string]string{"other": "1"}, Options: &openapi3filter.Options{}}
 	var ser ref.Serialized
@@ -144,6 +162,11 @@ func init() {
 			var c c05Case
 			c.cell = explore.Pick(x, ref.Cells)
 			c.shape = explore.Pick(x, c05Shapes)
+			if r.Tier == "thorough" {
+				if extra := c05ThoroughValues[c.shape.name]; extra != nil {
+					c.shape.values = append(append([]any{}, c.shape.values...), extra...)
+				}
+			}
 			c.si = x.Choose(len(c.shape.schemas))
 			c.presence = explore.Pick(x, presences)
 			if c.presence == "present" {
@@ -151,6 +174,17 @@ func init() {
 			}
 			c.required = x.Bool()
 			c.allowEmpt = x.Bool()
+			// the same cell declared with its defaults left out (OAS: explode defaults to true for form, false otherwise;
+			// style defaults to form for query/cookie, simple for path/header)
+			defaultExplode := c.cell.Style == "form"
+			defaultStyle := map[string]string{"query": "form", "cookie": "form", "path": "simple", "header": "simple"}[c.cell.In]
+			if c.cell.Explode == defaultExplode {
+				if c.cell.Style == defaultStyle {
+					c.declared = x.Choose(3)
+				} else {
+					c.declared = x.Choose(2)
+				}
+			}
 			c.reverse = x.Deviate(2) == 1
 			order := x.Deviate(2)
 			if !r.Own(x) {
